@@ -32,8 +32,12 @@ def replay_instances(ctx):
         ("a3", {"Addrs": A3, "TTLs": "{0, 2, 8}", "Conn": 8, "Seqs": "{1, 2}", "Cap": 0, "MaxBatch": 3}, 40, 600 if q else 2000, 60),
         # two addresses, two finite classes, connected and permanent
         ("a2", {"Addrs": A2, "TTLs": "{0, 2, 4, 8, 9}", "Conn": 8, "Seqs": "{1, 2}", "Cap": 0, "MaxBatch": 2}, 40, 600 if q else 2000, 60),
-        # binding per-peer cap (one-address calls)
-        ("cap", {"Addrs": A3, "TTLs": "{0, 2, 8}" if q else "{0, 2, 3, 8}", "Conn": 8, "Seqs": "{1, 2}", "Cap": 2, "MaxBatch": 1}, 40, 400 if q else 1500, 60),
+        # binding per-peer cap, one-address calls, connected class included
+        ("cap", {"Addrs": A3, "TTLs": "{0, 2, 8}", "Conn": 8, "Seqs": "{1, 2}", "Cap": 2, "MaxBatch": 1}, 40, 300 if q else 1000, 60),
+        # binding cap, ORDERED batches of up to two addresses (refreshed-existing then new, new then
+        # existing, two new) with two finite classes so that the nearest expiry is unique
+        ("capo", {"Addrs": A3, "TTLs": "{0, 2, 3}" if q else "{0, 2, 3, 8}", "Conn": 8, "Seqs": "{1}", "Cap": 2, "MaxBatch": 2},
+         40, 400 if q else 1500, 60),
     ]
     if not q:
         # three addresses, two finite classes; singletons and the full set (221 688 transitions)
@@ -125,7 +129,8 @@ def _edges(args):
     consts = dict(consts)
     ends = consts.pop("_ends", False)
     cfg = tlc.subst_cfg("C09_MC.cfg", consts, replace=[
-        ("Batches <- MCBatches", "Batches <- MCBatchesEnds" if ends else "Batches <- MCBatches"),
+        ("Batches <- MCBatches", "Batches <- MCBatchesEnds" if ends else
+         ("Batches <- MCOBatches" if consts["Cap"] else "Batches <- MCBatches")),
         ("INIT Init", "INIT MCInit"),
         ("VIEW View", "VIEW View\nACTION_CONSTRAINT EmitEdge"),
         (ALL_PROPS, "")])
@@ -175,7 +180,8 @@ def run(ctx):
     # (1) exhaustive design-level check of the statement's clauses on the abstract book (with and
     #     without the binding cap) + vacuity guards, (2) transition graphs for replay - side by side
     mc = [("full", tlc.subst_cfg("C09_MC.cfg", FULL)),
-          ("fullcap", tlc.subst_cfg("C09_MC.cfg", dict(FULL, Cap=2, MaxBatch=1)))]
+          ("fullcap", tlc.subst_cfg("C09_MC.cfg", dict(FULL, Cap=2, MaxBatch=2),
+                                    replace=[("Batches <- MCBatches", "Batches <- MCOBatches")]))]
     for inv in GUARDS:
         mc.append((inv, tlc.subst_cfg("C09_MC.cfg", insts[0][1], replace=[
             ("INVARIANTS TypeOK RecordLifetime", "INVARIANTS " + inv), (ALL_PROPS, "")])))
